@@ -16,7 +16,7 @@ import fnmatch
 prop, seed, n = sys.argv[1], int(sys.argv[2]), int(sys.argv[3])
 ctx = Ctx(); ctx.seed = seed; ctx.tier = os.environ.get("TIER", "quick"); ctx.xd = xdeps; ctx.prop = prop; ctx.build = "x"; ctx.hashseed = ""
 d = driver_for(prop)
-known = ["C01.*.gcyclic", "C11.*.eqne"]
+known = ["C01.*.gcyclic", "C11.*.eqne", "C02.subscript.outside"]
 out = []
 for run in range(n):
     case = d.generate(ctx, run)
